@@ -154,7 +154,12 @@ def ncpu():
     return n or min(16, os.cpu_count() or 1)
 
 
-def _worker(fn, tasks, tq, rq):
+def _worker(fn, tasks, tq, rq, cpu=None):
+    if cpu is not None:
+        try:        # one core per worker: baton hand-overs between its threads stay core-local
+            os.sched_setaffinity(0, {cpu})
+        except OSError:
+            pass
     while True:
         idx = tq.get()
         if idx is None:
@@ -180,7 +185,12 @@ def pmap(fn, tasks, jobs=None, timeout=3000):
         tq.put(i)
     for _ in range(jobs):
         tq.put(None)
-    procs = [ctx.Process(target=_worker, args=(fn, tasks, tq, rq), daemon=True) for _ in range(jobs)]
+    try:
+        cpus = sorted(os.sched_getaffinity(0))
+    except AttributeError:
+        cpus = [None]
+    procs = [ctx.Process(target=_worker, args=(fn, tasks, tq, rq, cpus[i % len(cpus)]), daemon=True)
+             for i in range(jobs)]
     for p in procs:
         p.start()
     results = [None] * len(tasks)
